@@ -45,6 +45,7 @@ type world struct {
 	fill bool // storage probe: populate every nil reference field of Device before constructing
 	// storage probe, second variant: every slice of Device empty but with spare capacity
 	emptySlices bool
+	probeOnly   bool // configuration 3: no expectations about DeviceList contents, sharing only
 	devices     []uhppote.Device
 	u           uhppote.IUHPPOTE
 	fake        *drv.Fake
@@ -120,6 +121,17 @@ func (w *world) construct(cfg int) {
 			{Name: "target", DeviceID: target, Address: ap("10.0.0.7:54321"), Doors: []string{"A", "B", "C", "D"}, Protocol: "tcp"},
 		}
 		w.routes = map[uint32]routeT{target: {"SendTCP", "10.0.0.7:54321"}, other: {"BroadcastTo", "255.255.255.255:60000"}}
+	case 3:
+		// (storage probe only) the same controller listed more than once - first with door names, then with
+		// its address, then complete - next to another one: whichever entry the client goes by, it keeps a
+		// copy of its own
+		w.devices = []uhppote.Device{
+			{Name: "target", DeviceID: target, Doors: []string{"A", "B", "C", "D"}},
+			{Name: "other", DeviceID: other, Address: ap("192.168.1.101:60000"), Doors: []string{"E", "F", "G", "H"}, Protocol: "udp"},
+			{Name: "", DeviceID: target, Address: ap("192.168.1.100:60000"), Protocol: "udp"},
+			{Name: "target again", DeviceID: target, Address: ap("192.168.1.100:60000"), Doors: []string{"I", "J", "K", "L"}, Protocol: "tcp"},
+		}
+		w.routes = map[uint32]routeT{}
 	}
 	w.fake = &drv.Fake{Script: func(c drv.Call) ([][]byte, error) {
 		if len(c.Request) != 64 {
@@ -249,6 +261,9 @@ func (w *world) apply(ev string) {
 			w.list = w.u.DeviceList()
 			if sh := sharedStorage(w.list, w.devices); len(sh) > 0 {
 				w.viol("device-list/shares-storage-with-caller-configuration", fmt.Sprintf("the map returned by DeviceList reaches storage of the caller's device list (a = DeviceList(), b = caller's []Device): %v", sh))
+			}
+			if w.probeOnly {
+				break // repeated serial numbers: which entry wins is not judged, only who shares storage with whom
 			}
 			// the list must describe the configuration as constructed (name, id, address, protocol)
 			for id, want := range w.built {
@@ -455,8 +470,11 @@ func main() {
 	// storage probe: the same three configurations with every reference-typed field of Device that is
 	// nil given a fresh non-nil value by reflection (so a field this harness does not know by name takes
 	// part); no call is made through these clients - only who reaches whose storage is examined
-	for probe := 0; probe < 6; probe++ {
-		cfg, empty := probe%3, probe >= 3
+	for probe := 0; probe < 10; probe++ {
+		cfg, empty := probe%3, probe >= 3 && probe < 6
+		if probe >= 6 { // configuration 3 (repeated serial numbers): as written, references populated, slices emptied, references only
+			cfg, empty = 3, probe == 8
+		}
 		how := "every nil reference field of Device populated"
 		if empty {
 			how += ", every slice empty with spare capacity"
@@ -464,7 +482,8 @@ func main() {
 		w := newWorld(func(key, what string) {
 			r.Violation("C17/"+key, fmt.Sprintf("%s — configuration %d with %s", what, cfg, how), "history", map[string]any{"events": []string{fmt.Sprintf("construct-%d", cfg), "clone-device-mutate", "device-list"}})
 		})
-		w.fill, w.emptySlices = true, empty
+		w.fill, w.emptySlices = probe != 6 && probe != 9, empty
+		w.probeOnly = cfg == 3
 		if p, msg, frame := vk.Guard(func() {
 			w.construct(cfg)
 			w.apply("clone-device-mutate")
